@@ -658,3 +658,93 @@ class _transpose_u:
         t = result[0]
         return And(same(attr(old.self, "_frequencies"), attr(a.self, "_frequencies")), tuple(attr(a.self, "_meta_data")["axis_names"]) == ("xx", "yy"),
                    *[x is not y for x in attr(t, "_binnings") for y in attr(a.self, "_binnings")], t is not a.self)
+
+
+# ---------------------------------------------------------------------------------------------- non-in-place arithmetic (C05, C06, C12)
+
+def _untouched(old_h, h):
+    return And(same(Fq(old_h), Fq(h)), same(Eq(old_h), Eq(h)), same(elems(attr(old_h, "_missed")), elems(attr(h, "_missed"))),
+               attr(h, "_dtype") == attr(old_h, "_dtype"))
+
+
+def _fresh(result, *operands):
+    """the result is a new object that shares no binning object with an operand"""
+    return And(*[result is not o for o in operands],
+               *[bn is not obn for o in operands for bn in attr(result, "_binnings") for obn in attr(o, "_binnings")])
+
+
+@contract(HB + ".__add__", props=["C05", "C12"], name=HB + ".__add__[same bins, any bin count]")
+class _add_u:
+
+    def configs():
+        return [{"d1": "int64", "d2": "int64"}, {"d1": "int64", "d2": "float64"}, {"d1": "float64", "d2": "int64"}]
+
+    def inputs(b):
+        n = nbins(b)
+        binning = static_binning_t(b, "B", n)
+        other_binning = b.obj(STB, _consecutive=None, _bins=attr(binning, "_bins"), _numpy_bins=None, _includes_right_edge=True, _adaptive=False)
+        return dict(self=hist1d_t(b, "h", n, b.cfg.d1, binning), other=hist1d_t(b, "o", n, b.cfg.d2, other_binning))
+
+    @ensures("the_sum_bin_by_bin_in_a_new_histogram_both_operands_untouched")
+    def _(a, old, result):
+        n = count_of(old.self)
+        f0, e0, g, ge, f1, e1 = Fq(old.self), Eq(old.self), Fq(old.other), Eq(old.other), Fq(result), Eq(result)
+        want = np.promote_types(attr(old.self, "_dtype"), attr(old.other, "_dtype"))
+        return And(count_of(result) == n, forall(0, n, lambda i: And(f1[i] == f0[i] + g[i], e1[i] == e0[i] + ge[i])),
+                   attr(result, "_dtype") == want, dtype_of(f1) == want, dtype_of(e1) == want,
+                   _untouched(old.self, a.self), _untouched(old.other, a.other), _fresh(result, a.self, a.other))
+
+
+@contract(HB + ".__mul__", props=["C06", "C12"], name=HB + ".__mul__[any bin count]")
+class _mul_u:
+    configs = staticmethod(_scal_cfgs)
+
+    def inputs(b):
+        c = scalar(b)
+        b.assume(c >= 0)
+        return dict(self=hist1d_t(b, "h", nbins(b), b.cfg.dtype), other=c)
+
+    @ensures("every_content_times_c_in_a_new_histogram_the_operand_untouched")
+    def _(a, old, result):
+        n, c = count_of(old.self), old.other
+        f0, e0, f1, e1 = Fq(old.self), Eq(old.self), Fq(result), Eq(result)
+        return And(count_of(result) == n, forall(0, n, lambda i: And(f1[i] == f0[i] * c, e1[i] == e0[i] * c * c)),
+                   _untouched(old.self, a.self), _fresh(result, a.self))
+
+
+@contract(HB + ".__truediv__", props=["C06", "C12"], name=HB + ".__truediv__[any bin count]")
+class _div_u:
+    configs = staticmethod(_scal_cfgs)
+
+    def inputs(b):
+        c = scalar(b)
+        b.assume(c > 0)
+        return dict(self=hist1d_t(b, "h", nbins(b), b.cfg.dtype), other=c)
+
+    @ensures("every_content_divided_by_c_in_a_new_float_histogram_the_operand_untouched")
+    def _(a, old, result):
+        n, c = count_of(old.self), old.other
+        f0, e0, f1, e1 = Fq(old.self), Eq(old.self), Fq(result), Eq(result)
+        return And(count_of(result) == n, forall(0, n, lambda i: And(close(f1[i] * c, f0[i]), close(e1[i] * c * c, e0[i]))),
+                   attr(result, "_dtype") == np.dtype("float64"), _untouched(old.self, a.self), _fresh(result, a.self))
+
+
+@contract(HB + ".normalize", props=["C06", "C12"], name=HB + ".normalize[new histogram, any bin count]")
+class _normalize_new_u:
+    def configs():
+        return [{"dtype": "int64", "percent": False}, {"dtype": "float64", "percent": True}]
+
+    def inputs(b):
+        n = nbins(b)
+        h = hist1d_t(b, "h", n, b.cfg.dtype)
+        b.assume(total_t(Fq(h)) > 0)
+        return dict(self=h, inplace=False, percent=b.cfg.percent)
+
+    @ensures("proportions_kept_in_a_new_float_histogram_the_operand_untouched")
+    def _(a, old, result):
+        n = count_of(old.self)
+        tot = total_t(Fq(old.self))
+        scale = 100 if old.percent else 1
+        f0, f1 = Fq(old.self), Fq(result)
+        return And(count_of(result) == n, forall(0, n, lambda i: close(f1[i] * tot, f0[i] * scale)),
+                   attr(result, "_dtype").kind == "f", _untouched(old.self, a.self), _fresh(result, a.self))
